@@ -90,10 +90,16 @@ theorem dropWhile_eq_self_of_all_false {α} (p : α → Bool) (s : List α) (h :
   | nil => rfl
   | cons a as => simp [List.dropWhile, h a (by simp)]
 
-theorem stripBlank_of_noBlank (s : List Char) (h : ∀ c ∈ s, isBlank c = false) : stripBlank s = s := by
-  unfold stripBlank
+theorem stripBy_of_none (p : Char → Bool) (s : List Char) (h : ∀ c ∈ s, p c = false) : stripBy p s = s := by
+  unfold stripBy
   rw [dropWhile_eq_self_of_all_false _ _ h, dropWhile_eq_self_of_all_false _ _ (by simpa using h)]
   simp
+
+theorem stripBlank_of_noBlank (s : List Char) (h : ∀ c ∈ s, isBlank c = false) : stripBlank s = s :=
+  stripBy_of_none _ s h
+
+theorem stripInt_of_noBlank (s : List Char) (h : ∀ c ∈ s, isBlank c = false) : stripBy isIntBlank s = s :=
+  stripBy_of_none _ s (fun c hc => by simp [isIntBlank, h c hc])
 
 theorem digits10_props : ∀ c ∈ digits10, isBlank c = false ∧ sepChars.contains c = false ∧
     expChars.contains c = true ∧ c ≠ 'u' ∧ c ≠ '-' ∧ c ≠ '+' := by decide
@@ -121,7 +127,7 @@ theorem expChars_props : ∀ c ∈ expChars, isBlank c = false ∧ sepChars.cont
 theorem pyInt_of_head (a : Char) (as : List Char) (h1 : a ≠ '-') (h2 : a ≠ '+')
     (hnb : ∀ c ∈ a :: as, isBlank c = false) : pyInt (a :: as) = pyIntBody false (a :: as) := by
   unfold pyInt
-  rw [stripBlank_of_noBlank _ hnb]
+  rw [stripInt_of_noBlank _ hnb]
   split
   · rename_i heq; cases heq; exact absurd rfl h1
   · rename_i heq; cases heq; exact absurd rfl h2
@@ -134,7 +140,7 @@ theorem pyInt_showInt (n : Int) : pyInt (showIntChars n) = some n := by
   · have hs : showIntChars n = '-' :: showNatChars n.natAbs := by simp [showIntChars, hneg]
     rw [hs] at hnb ⊢
     unfold pyInt
-    rw [stripBlank_of_noBlank _ hnb]
+    rw [stripInt_of_noBlank _ hnb]
     simp only [pyIntBody]
     have hne := showNatF_ne_nil n.natAbs n.natAbs
     split
@@ -553,5 +559,421 @@ theorem pyInt_expText_ok (e : Int) : (!(expText e).isEmpty && (pyInt (expText e)
 
 theorem syms_nonempty : ∀ s ∈ spaceSyms ++ timeSyms ++ qtySyms ++ densitySyms ++ volumeSyms, s.toList ≠ [] := by
   decide +kernel
+
+/-! ### printed units are clean, blank-free text -/
+
+def allSyms : List String := spaceSyms ++ timeSyms ++ qtySyms ++ densitySyms ++ volumeSyms
+
+theorem printed_mem (u : Units) (hv : u.sys.valid = true) : ∀ b ∈ printedBlocks u, ∃ sym e, b = pblock sym e ∧
+    sym ∈ spaceSyms ++ timeSyms ++ qtySyms ++ densitySyms ++ volumeSyms := by
+  have hv' := (Sys.valid_iff _).1 hv
+  intro b hb
+  simp only [printedBlocks, pblocks, List.mem_append] at hb
+  rcases hb with (hb | hb) | hb <;> split at hb <;> simp only [List.mem_singleton, List.not_mem_nil] at hb
+  · exact ⟨_, _, hb, by simp [hv'.1]⟩
+  · exact ⟨_, _, hb, by simp [hv'.2.1]⟩
+  · exact ⟨_, _, hb, by simp [hv'.2.2]⟩
+
+theorem printed_clean (u : Units) (hv : u.sys.valid = true) : uClean (renderBlocks (printedBlocks u)) := by
+  apply uClean_renderBlocks
+  intro b hb
+  obtain ⟨sym, e, rfl, hs⟩ := printed_mem u hv b hb
+  exact ⟨(pblock_clean sym e hs).1, (pblock_clean sym e hs).2.1⟩
+
+theorem printed_noBlank (u : Units) (hv : u.sys.valid = true) :
+    ∀ c ∈ renderBlocks (printedBlocks u), isBlank c = false := by
+  intro c hc
+  obtain ⟨b, hb, hcb⟩ := mem_renderBlocks hc
+  obtain ⟨sym, e, rfl, hs⟩ := printed_mem u hv b hb
+  exact (pblock_clean sym e hs).2.2 c hcb
+
+theorem showUnitsChars_noBlank (u : Units) (hv : u.sys.valid = true) :
+    ∀ c ∈ showUnitsChars u, isBlank c = false := by
+  rw [showUnitsChars_eq]; exact printed_noBlank u hv
+
+/-! ### `str.strip()` / `str.split()` on `value␣units` -/
+
+theorem stripBy_ends (p : Char → Bool) (a : Char) (m : List Char) (z : Char) (ha : p a = false) (hz : p z = false) :
+    stripBy p (a :: (m ++ [z])) = a :: (m ++ [z]) := by
+  unfold stripBy
+  simp [List.dropWhile, ha, hz]
+
+theorem stripBy_tok_blank (p : Char → Bool) (tok : List Char) (hne : tok ≠ []) (ht : ∀ c ∈ tok, p c = false)
+    (b : Char) (hb : p b = true) : stripBy p (tok ++ [b]) = tok := by
+  cases tok with
+  | nil => exact absurd rfl hne
+  | cons a as =>
+    unfold stripBy
+    have ha := ht a (by simp)
+    have hr : ((a :: as).reverse).dropWhile p = (a :: as).reverse :=
+      dropWhile_eq_self_of_all_false _ _ (fun c hc => ht c (by simpa [or_comm] using hc))
+    simp only [List.cons_append, List.dropWhile, ha]
+    rw [show (a :: (as ++ [b])).reverse = b :: (a :: as).reverse by simp]
+    simp only [List.dropWhile, hb, hr, List.reverse_reverse]
+
+theorem splitBlankAux_tok (t : List Char) (ht : ∀ c ∈ t, isBlank c = false) (cur rest : List Char) :
+    splitBlankAux cur (t ++ rest) = splitBlankAux (cur ++ t) rest := by
+  induction t generalizing cur with
+  | nil => simp
+  | cons a as ih =>
+    simp only [List.cons_append, splitBlankAux, ht a (by simp), Bool.false_eq_true, if_false]
+    rw [ih (fun c hc => ht c (by simp [hc]))]
+    simp
+
+theorem splitBlank_tok (t : List Char) (hne : t ≠ []) (ht : ∀ c ∈ t, isBlank c = false) : splitBlank t = [t] := by
+  have := splitBlankAux_tok t ht [] []
+  simp only [List.append_nil, List.nil_append] at this
+  have he : t.isEmpty = false := by simpa using hne
+  rw [splitBlank, this]
+  simp [splitBlankAux, he]
+
+theorem splitBlank_two (t u : List Char) (hnt : t ≠ []) (ht : ∀ c ∈ t, isBlank c = false)
+    (hnu : u ≠ []) (hu : ∀ c ∈ u, isBlank c = false) (b : Char) (hb : isBlank b = true) :
+    splitBlank (t ++ b :: u) = [t, u] := by
+  have h1 := splitBlankAux_tok t ht [] (b :: u)
+  simp only [List.nil_append] at h1
+  have he : t.isEmpty = false := by simpa using hnt
+  rw [splitBlank, h1]
+  simp only [splitBlankAux, hb, if_true, he, Bool.false_eq_true, if_false]
+  have := splitBlank_tok u hnu hu
+  rw [splitBlank] at this
+  rw [this]
+
+/-! ### rejection: blocks the second loop cannot accept -/
+
+theorem addBlocks_error_of_mem (b : Block) (hb : ∀ a : Acc, (a.addBlock b).isError = true) :
+    ∀ (bs : List Block), b ∈ bs → ∀ a : Acc, (a.addBlocks bs).isError = true := by
+  intro bs
+  induction bs with
+  | nil => intro h; simp at h
+  | cons x xs ih =>
+    intro h a
+    simp only [Acc.addBlocks]
+    by_cases hx : x = b
+    · subst hx
+      have := hb a
+      cases hab : a.addBlock x with
+      | error e => rfl
+      | ok a' => rw [hab] at this; exact absurd this (by simp [Res.isError])
+    · have hm : b ∈ xs := by
+        simp only [List.mem_cons] at h
+        rcases h with h | h
+        · exact absurd h.symm hx
+        · exact h
+      cases a.addBlock x with
+      | error e => rfl
+      | ok a' => exact ih hm a'
+
+theorem finishBlocks_error_of_mem (b : Block) (hb : ∀ a : Acc, (a.addBlock b).isError = true)
+    (bs : List Block) (h : b ∈ bs) : (finishBlocks bs).isError = true := by
+  unfold finishBlocks
+  split
+  · rfl
+  · have := addBlocks_error_of_mem b hb bs h {}
+    cases hab : ({} : Acc).addBlocks bs with
+    | error e => rfl
+    | ok a' => rw [hab] at this; exact absurd this (by simp [Res.isError])
+
+theorem addBlock_error_of_unknown (b : Block) (h : unitType (String.ofList b.sym) = none) (a : Acc) :
+    (a.addBlock b).isError = true := by
+  unfold Acc.addBlock
+  cases blockExp b with
+  | none => rfl
+  | some e => simp only [symContrib, h]; rfl
+
+theorem addBlock_error_of_badExp (b : Block) (h : blockExp b = none) (a : Acc) :
+    (a.addBlock b).isError = true := by
+  unfold Acc.addBlock
+  rw [h]; rfl
+
+theorem unitType_empty : unitType (String.ofList []) = none := by decide +kernel
+
+/-! ### rejection: where the characters of the text land -/
+
+theorem scan_mem_done (s : List Char) : ∀ (done : List Block) (cur : Block) (e : Bool) (x : Block),
+    x ∈ done → x ∈ scanBlocks s done cur e := by
+  induction s with
+  | nil => intro done cur e x hx; simp [scanBlocks, hx]
+  | cons c cs ih =>
+    intro done cur e x hx
+    simp only [scanBlocks]
+    split
+    · exact ih _ _ _ x (by simp [hx])
+    · split <;> exact ih _ _ _ x hx
+
+/-- processing a prefix of the text only adds to the finished blocks -/
+theorem scan_prefix (a rest : List Char) : ∀ (done : List Block) (cur : Block) (e : Bool),
+    ∃ done' cur' e', scanBlocks (a ++ rest) done cur e = scanBlocks rest done' cur' e' ∧ ∀ x ∈ done, x ∈ done' := by
+  induction a with
+  | nil => intro done cur e; exact ⟨done, cur, e, rfl, fun x hx => hx⟩
+  | cons c cs ih =>
+    intro done cur e
+    simp only [List.cons_append, scanBlocks]
+    split
+    · obtain ⟨d', c', e', h, hm⟩ := ih (cur :: done) ⟨c, [], []⟩ false
+      exact ⟨d', c', e', h, fun x hx => hm x (by simp [hx])⟩
+    · split
+      · obtain ⟨d', c', e', h, hm⟩ := ih done { cur with exp := cur.exp ++ [c] } (e || expChars.contains c)
+        exact ⟨d', c', e', h, hm⟩
+      · obtain ⟨d', c', e', h, hm⟩ := ih done { cur with sym := cur.sym ++ [c] } (e || expChars.contains c)
+        exact ⟨d', c', e', h, hm⟩
+
+/-- in exponent mode the symbol of the current block is final -/
+theorem scan_expmode_sym (s : List Char) : ∀ (done : List Block) (c : Char) (sy ex : List Char),
+    ∃ b ∈ scanBlocks s done ⟨c, sy, ex⟩ true, b.sym = sy := by
+  induction s with
+  | nil => intro done c sy ex; exact ⟨⟨c, sy, ex⟩, by simp [scanBlocks], rfl⟩
+  | cons x xs ih =>
+    intro done c sy ex
+    simp only [scanBlocks]
+    split
+    · exact ⟨⟨c, sy, ex⟩, scan_mem_done _ _ _ _ _ (by simp), rfl⟩
+    · simp only [Bool.true_or, if_true]
+      exact ih done c sy (ex ++ [x])
+
+/-- a block with an empty symbol results from: a leading separator, two adjacent separators, a trailing
+separator, or an exponent character at the start of a factor -/
+theorem scan_emptySym_leading_sep (c : Char) (r : List Char) (hc : sepChars.contains c = true) (s0 : Char) :
+    ∃ b ∈ scanBlocks (c :: r) [] ⟨s0, [], []⟩ false, b.sym = [] :=
+  ⟨⟨s0, [], []⟩, by simp only [scanBlocks, hc, if_true]; exact scan_mem_done _ _ _ _ _ (by simp), rfl⟩
+
+theorem scan_emptySym_adjacent (a : List Char) (c1 c2 : Char) (r : List Char) (h1 : sepChars.contains c1 = true)
+    (h2 : sepChars.contains c2 = true) (done : List Block) (cur : Block) (e : Bool) :
+    ∃ b ∈ scanBlocks (a ++ c1 :: c2 :: r) done cur e, b.sym = [] := by
+  obtain ⟨d', c', e', h, _⟩ := scan_prefix a (c1 :: c2 :: r) done cur e
+  rw [h]
+  simp only [scanBlocks, h1, h2, if_true]
+  exact ⟨⟨c1, [], []⟩, scan_mem_done _ _ _ _ _ (by simp), rfl⟩
+
+theorem scan_emptySym_trailing (a : List Char) (c : Char) (h1 : sepChars.contains c = true)
+    (done : List Block) (cur : Block) (e : Bool) :
+    ∃ b ∈ scanBlocks (a ++ [c]) done cur e, b.sym = [] := by
+  obtain ⟨d', c', e', h, _⟩ := scan_prefix a [c] done cur e
+  rw [h]
+  simp only [scanBlocks, h1, if_true]
+  exact ⟨⟨c, [], []⟩, by simp, rfl⟩
+
+theorem scan_emptySym_exp_first (d : Char) (r : List Char) (hd : expChars.contains d = true)
+    (hs : sepChars.contains d = false) (done : List Block) (c : Char) :
+    ∃ b ∈ scanBlocks (d :: r) done ⟨c, [], []⟩ false, b.sym = [] := by
+  simp only [scanBlocks, hs, Bool.false_eq_true, if_false, hd, Bool.or_true, if_true]
+  exact scan_expmode_sym r done c [] ([] ++ [d])
+
+theorem scan_emptySym_sep_exp (a : List Char) (c d : Char) (r : List Char) (hc : sepChars.contains c = true)
+    (hd : expChars.contains d = true) (hs : sepChars.contains d = false) (done : List Block) (cur : Block) (e : Bool) :
+    ∃ b ∈ scanBlocks (a ++ c :: d :: r) done cur e, b.sym = [] := by
+  obtain ⟨d', c', e', h, _⟩ := scan_prefix a (c :: d :: r) done cur e
+  rw [h]
+  simp only [scanBlocks, hc, if_true]
+  exact scan_emptySym_exp_first d r hd hs _ c
+
+/-- every non-separator character of the text ends up in the symbol or the exponent text of a block;
+a character that is not an exponent character never starts an exponent text -/
+theorem scan_char_lands (s : List Char) : ∀ (done : List Block) (cur : Block) (e : Bool) (x : Char),
+    x ∈ s → sepChars.contains x = false → expChars.contains x = false →
+    ((e = false → cur.exp = []) ∧ (e = true → cur.exp ≠ [])) →
+    ∃ b ∈ scanBlocks s done cur e, x ∈ b.sym ∨ ∃ h t, b.exp = h :: t ∧ x ∈ t := by
+  induction s with
+  | nil => intro _ _ _ x hx; simp at hx
+  | cons c cs ih =>
+    intro done cur e x hx hsep hexp hinv
+    simp only [List.mem_cons] at hx
+    simp only [scanBlocks]
+    rcases hx with hx | hx
+    · subst hx
+      simp only [hsep, Bool.false_eq_true, if_false, hexp, Bool.or_false]
+      cases e with
+      | false =>
+        simp only [Bool.false_eq_true, if_false]
+        -- lands in the symbol; the block may still grow, find it by a second induction
+        have key : ∀ (s : List Char) (done : List Block) (cur : Block) (e : Bool), x ∈ cur.sym →
+            ∃ b ∈ scanBlocks s done cur e, x ∈ b.sym := by
+          intro s
+          induction s with
+          | nil => intro done cur e h; exact ⟨cur, by simp [scanBlocks], h⟩
+          | cons y ys ih2 =>
+            intro done cur e h
+            simp only [scanBlocks]
+            split
+            · exact ⟨cur, scan_mem_done _ _ _ _ _ (by simp), h⟩
+            · split
+              · exact ih2 done _ _ h
+              · exact ih2 done _ _ (by simp [h])
+        obtain ⟨b, hb, hxb⟩ := key cs done { cur with sym := cur.sym ++ [x] } false (by simp)
+        exact ⟨b, hb, Or.inl hxb⟩
+      | true =>
+        simp only [if_true]
+        have key : ∀ (s : List Char) (done : List Block) (cur : Block), (∃ h t, cur.exp = h :: t ∧ x ∈ t) →
+            ∃ b ∈ scanBlocks s done cur true, ∃ h t, b.exp = h :: t ∧ x ∈ t := by
+          intro s
+          induction s with
+          | nil => intro done cur h; exact ⟨cur, by simp [scanBlocks], h⟩
+          | cons y ys ih2 =>
+            intro done cur h
+            simp only [scanBlocks]
+            split
+            · exact ⟨cur, scan_mem_done _ _ _ _ _ (by simp), h⟩
+            · simp only [Bool.true_or, if_true]
+              obtain ⟨hh, tt, h1, h2⟩ := h
+              exact ih2 done _ ⟨hh, tt ++ [y], by simp [h1], by simp [h2]⟩
+        obtain ⟨h0, t0, hce⟩ := List.exists_cons_of_ne_nil (hinv.2 rfl)
+        obtain ⟨b, hb, hxb⟩ := key cs done { cur with exp := cur.exp ++ [x] }
+          ⟨h0, t0 ++ [x], by simp [hce], by simp⟩
+        exact ⟨b, hb, Or.inr hxb⟩
+    · split
+      · exact ih _ _ _ x hx hsep hexp ⟨fun _ => rfl, fun h => by simp at h⟩
+      · split
+        · rename_i h1 h2
+          exact ih _ _ _ x hx hsep hexp
+            ⟨by intro h; rw [h] at h2; exact absurd h2 (by simp), fun _ => by simp⟩
+        · rename_i h1 h2
+          have he : e = false := by
+            cases e with
+            | false => rfl
+            | true => simp at h2
+          have hc : expChars.contains c = false := by
+            cases hcc : expChars.contains c with
+            | false => rfl
+            | true => rw [hcc] at h2; simp at h2
+          refine ih _ _ _ x hx hsep hexp ⟨fun _ => hinv.1 he, fun h => ?_⟩
+          rw [he, hc] at h; simp at h
+
+/-- every character of a block comes from the text (or from the state the loop started in) -/
+theorem scan_chars_from_text (Q : Char → Prop) (s : List Char) : ∀ (done : List Block) (cur : Block) (e : Bool),
+    (∀ b ∈ done, ∀ c ∈ b.sym ++ b.exp, Q c) → (∀ c ∈ cur.sym ++ cur.exp, Q c) → (∀ c ∈ s, Q c) →
+    ∀ b ∈ scanBlocks s done cur e, ∀ c ∈ b.sym ++ b.exp, Q c := by
+  induction s with
+  | nil =>
+    intro done cur e hd hc _ b hb
+    simp only [scanBlocks, List.mem_reverse, List.mem_cons] at hb
+    rcases hb with hb | hb
+    · subst hb; exact hc
+    · exact hd b hb
+  | cons x xs ih =>
+    intro done cur e hd hc hs
+    have hx := hs x (by simp)
+    have hxs : ∀ c ∈ xs, Q c := fun c h => hs c (by simp [h])
+    simp only [scanBlocks]
+    split
+    · apply ih _ _ _ _ (by simp) hxs
+      intro b hb
+      simp only [List.mem_cons] at hb
+      rcases hb with hb | hb
+      · subst hb; exact hc
+      · exact hd b hb
+    · split
+      · apply ih _ _ _ hd _ hxs
+        intro c h
+        simp only [List.mem_append, List.mem_singleton] at h hc
+        rcases h with h | h | h
+        · exact hc c (Or.inl h)
+        · exact hc c (Or.inr h)
+        · subst h; exact hx
+      · apply ih _ _ _ hd _ hxs
+        intro c h
+        simp only [List.mem_append, List.mem_singleton] at h hc
+        rcases h with (h | h) | h
+        · exact hc c (Or.inl h)
+        · subst h; exact hx
+        · exact hc c (Or.inr h)
+
+theorem scan_exp_tail_mem (x : Char) (s : List Char) : ∀ (done : List Block) (cur : Block),
+    (∃ h t, cur.exp = h :: t ∧ x ∈ t) →
+    ∃ b ∈ scanBlocks s done cur true, ∃ h t, b.exp = h :: t ∧ x ∈ t := by
+  induction s with
+  | nil => intro done cur h; exact ⟨cur, by simp [scanBlocks], h⟩
+  | cons y ys ih2 =>
+    intro done cur h
+    simp only [scanBlocks]
+    split
+    · exact ⟨cur, scan_mem_done _ _ _ _ _ (by simp), h⟩
+    · simp only [Bool.true_or, if_true]
+      obtain ⟨hh, tt, h1, h2⟩ := h
+      exact ih2 done _ ⟨hh, tt ++ [y], by simp [h1], by simp [h2]⟩
+
+/-- a character directly after an exponent character, inside the same factor, lands in the tail of
+that factor's exponent text -/
+theorem scan_after_exp (a : List Char) (d y : Char) (r : List Char) (hd : expChars.contains d = true)
+    (hds : sepChars.contains d = false) (hys : sepChars.contains y = false)
+    (done : List Block) (cur : Block) (e : Bool) :
+    ∃ b ∈ scanBlocks (a ++ d :: y :: r) done cur e, ∃ h t, b.exp = h :: t ∧ y ∈ t := by
+  obtain ⟨d', c', e', h, _⟩ := scan_prefix a (d :: y :: r) done cur e
+  rw [h]
+  simp only [scanBlocks, hds, hys, Bool.false_eq_true, if_false, hd, Bool.or_true, if_true]
+  apply scan_exp_tail_mem
+  cases hce : c'.exp with
+  | nil => exact ⟨d, [y], by simp, by simp⟩
+  | cons h0 t0 => exact ⟨h0, t0 ++ [d] ++ [y], by simp, by simp⟩
+
+theorem pyIntGo_none (x : Char) (hx1 : x.isDigit = false) (hx2 : x ≠ '_') :
+    ∀ (l : List Char) (acc : Nat) (prev : Bool), x ∈ l → pyIntGo acc prev l = none := by
+  intro l
+  induction l with
+  | nil => intro _ _ h; simp at h
+  | cons c cs ih =>
+    intro acc prev h
+    simp only [List.mem_cons] at h
+    simp only [pyIntGo]
+    split
+    · rename_i hc
+      rcases h with h | h
+      · subst h; rw [hx1] at hc; exact absurd hc (by simp)
+      · exact ih _ _ h
+    · split
+      · rename_i hc hu
+        rcases h with h | h
+        · subst h
+          simp only [Bool.and_eq_true, beq_iff_eq] at hu
+          exact absurd hu.1.1 hx2
+        · exact ih _ _ h
+      · rfl
+
+theorem pyIntBody_none (x : Char) (hx1 : x.isDigit = false) (hx2 : x ≠ '_') (neg : Bool) (l : List Char)
+    (hx : x ∈ l) : pyIntBody neg l = none := by
+  cases l with
+  | nil => rfl
+  | cons c cs =>
+    simp only [pyIntBody]
+    rw [pyIntGo_none x hx1 hx2 _ _ _ hx]
+
+theorem pyInt_none_of_bad_tail (h : Char) (t : List Char) (hnb : ∀ c ∈ h :: t, isBlank c = false)
+    (x : Char) (hx : x ∈ t) (hx1 : x.isDigit = false) (hx2 : x ≠ '_') : pyInt (h :: t) = none := by
+  unfold pyInt
+  rw [stripInt_of_noBlank _ hnb]
+  split
+  · rename_i r heq
+    cases heq
+    exact pyIntBody_none x hx1 hx2 _ _ hx
+  · rename_i r heq
+    cases heq
+    exact pyIntBody_none x hx1 hx2 _ _ hx
+  · exact pyIntBody_none x hx1 hx2 _ _ (by simp [hx])
+
+theorem finishBlocks_error_of_badExp (bs : List Block) (b : Block) (hb : b ∈ bs) (hne : b.exp ≠ [])
+    (hp : pyInt b.exp = none) : finishBlocks bs = .error .badSyntax := by
+  unfold finishBlocks
+  have : bs.any (fun b => !b.exp.isEmpty && (pyInt b.exp).isNone) = true := by
+    rw [List.any_eq_true]
+    exact ⟨b, hb, by simp [hne, hp]⟩
+  rw [if_pos this]
+
+theorem unitType_none_of_not_mem (s : String) (h : s ∉ allSyms) : unitType s = none := by
+  have ho : unitTypeOrder = ["space", "time", "quantity", "density", "volume"] := by decide
+  simp only [allSyms, List.mem_append, not_or] at h
+  simp [unitType, ho, List.lookup, List.filterMap, h.1.1.1.1, h.1.1.1.2, h.1.1.2, h.1.2, h.2]
+
+/-- the two outcomes of `parse_units` on non-empty preprocessed text -/
+theorem parseUnitsCore_cases (s : List Char) (hne : s ≠ []) :
+    parseUnitsCore s = .error .badSyntax ∨
+    ((∀ c ∈ s, isBlank c = false) ∧
+      parseUnitsCore s = finishBlocks (scanBlocks s [] ⟨puFirstBlockSep, [], []⟩ false)) := by
+  by_cases hb : s.any isBlank = true
+  · left
+    have h1 : s.isEmpty = false := by simpa using hne
+    have hg : puRejectsInnerBlank = true := rfl
+    simp [parseUnitsCore, h1, hb, hg]
+  · right
+    have hnb : ∀ c ∈ s, isBlank c = false := by simpa using hb
+    exact ⟨hnb, parseUnitsCore_nonempty s hne hnb⟩
 
 end Strengths
